@@ -19,6 +19,8 @@
 //   red2 <T> <func> <shape> <m> <n> <k1>,<P1> <k2>,<P2>
 //   redf <T> <func> <N> <kf>      redf2 <T> <func> <m>x<n> <kf>     reductions of a FixedArray
 //         func: sum product maxval minval mean norm2
+//   nod1 / nod2 / nod3 / nodr                      statements over nodes that are not element-wise packet operations (spread,
+//         outer_product, pow, comparisons, IndexedArray, transposes, where ...): see drv_simd_node.h
 // output:  G <model input line> | H site= vec= is= ie= pk= | R ok    (or R bad .. / R guard .. / R exc / FAULT)
 // Everything is evaluated on small integers (powers of two for products), so any correct evaluation order
 // gives bit-identical results and "R ok" means: every element equals the plain scalar loop, nothing outside
@@ -51,6 +53,7 @@ static std::string dispatch(const Words& w) {
 #ifndef VERIF_SIMD_NUM_ONLY   // the scalar reference and the default-flags fastexp builds link the numerics half only
   if (op.compare(0, 3, "asg") == 0 || op == "pack" || op == "packc") return f ? asg_f(w) : asg_d(w);
   if (op.compare(0, 3, "red") == 0) return f ? red_f(w) : red_d(w);
+  if (op.compare(0, 3, "nod") == 0) return f ? nod_f(w) : nod_d(w);
 #endif
   return "bad-op";
 }
